@@ -22,6 +22,8 @@ func init() {
 			"R1 PushRequest.Merge/CopyMerge read every field of both operands (frozen exceptions: Start first-wins, Delta never queued, Push newest-wins) and union set-valued fields; Forced is an OR",
 			"R2 CopyMerge / ReasonStats.CopyMerge never store into or call a mutator on a value derived from an operand",
 			"R3 no function reachable from the per-connection push path writes a field of a shared *PushRequest; who-may-call mutating Merge = debounce",
+			"R8 StartPush enqueues the request for every connection registered in adsClients; nothing on the way to Enqueue filters on the connection's initialised state (a connection between addCon and MarkInitialized would miss the snapshot)",
+			"R9 in debounce's event arm the quiet timer is (re)armed only under `debouncedEvents == 0`: later events of the batch must not restart it, otherwise the maximum delay (debounceMax, only evaluated when the timer fires) never takes effect under a steady stream and nothing is pushed while the churn lasts",
 			"R4 the push event's done() runs on every exit of the per-connection handlers; doSendPushes' doneFunc calls MarkDone and releases the semaphore in every non-handoff arm",
 			"R5 PushQueue state is touched only with cond.L held",
 			"R6 Enqueue merges with CopyMerge (not Merge) into pending and processing; MarkDone re-queues a non-nil in-flight request",
@@ -35,6 +37,8 @@ func init() {
 			{"C02-R4", "done() / semaphore release on every exit", c02r4},
 			{"C02-R6", "Enqueue uses CopyMerge; MarkDone re-queues", c02r6},
 			{"C02-R7", "debounce single-flight protocol", c02r7},
+			{"C02-R8", "a global push is enqueued for every registered connection (shared with C05-R2b)", func(c *Ctx) { startPushFanOut(c); c.Floor(2) }},
+			{"C02-R9", "the quiet timer of a batch is armed by its first event only", c02r9},
 		},
 	})
 }
@@ -1519,4 +1523,66 @@ func funcHoldingDeep(fn *ssa.Function, pred func(ssa.Instruction) bool, depth in
 		}
 	})
 	return found
+}
+
+
+// C02-R9: first-event-only arming of the quiet timer.
+func c02r9(c *Ctx) {
+	p := c.P
+	fn := p.Func(pkgXds, "", "debounce")
+	// the cells of the captured locals
+	var timeCell, evCell *ssa.Alloc
+	eachInstr(fn, func(ins ssa.Instruction) {
+		if a, ok := ins.(*ssa.Alloc); ok {
+			switch a.Comment {
+			case "timeChan":
+				timeCell = a
+			case "debouncedEvents":
+				evCell = a
+			}
+		}
+	})
+	if timeCell == nil || evCell == nil {
+		c.Check("debounce keeps timeChan and debouncedEvents", fn.Pos(), false, "the locals timeChan / debouncedEvents of debounce were not found (they are captured by pushWorker)")
+		return
+	}
+	// edges on which no event of the batch has been seen yet
+	var first []Edge
+	for _, i := range allIfs(fn) {
+		v, neg := stripNot(i.Cond)
+		b, ok := v.(*ssa.BinOp)
+		if !ok || (b.Op != token.EQL && b.Op != token.NEQ) {
+			continue
+		}
+		isEv := func(x ssa.Value) bool {
+			u, ok := x.(*ssa.UnOp)
+			return ok && u.Op == token.MUL && u.X == ssa.Value(evCell)
+		}
+		isZero := func(x ssa.Value) bool {
+			k, ok := x.(*ssa.Const)
+			return ok && k.Value != nil && k.Int64() == 0
+		}
+		if (isEv(b.X) && isZero(b.Y)) || (isEv(b.Y) && isZero(b.X)) {
+			idx := 0
+			if (b.Op == token.EQL) == neg {
+				idx = 1
+			}
+			first = append(first, Edge{i.Block(), idx})
+		}
+	}
+	n := 0
+	eachInstr(fn, func(ins ssa.Instruction) {
+		st, ok := ins.(*ssa.Store)
+		if !ok || st.Addr != ssa.Value(timeCell) {
+			return
+		}
+		if k, isC := st.Val.(*ssa.Const); isC && k.IsNil() {
+			return // initialisation
+		}
+		n++
+		c.Check("quiet timer armed only by the first event of a batch", st.Pos(), underEdges(fn, st.Block(), first),
+			"debounce (re)arms the quiet timer for an event that is not the first of its batch: every event of a steady stream pushes the timer out again, the timer never fires, and debounceMax - which is only evaluated when it fires - cannot force the push; nothing is pushed until the stream pauses")
+	})
+	c.Check("debounce arms the quiet timer in its event arm", fn.Pos(), n >= 1 && len(first) >= 1, "no timer assignment / no `debouncedEvents == 0` test found in debounce")
+	c.Floor(2)
 }
